@@ -135,16 +135,16 @@ def check_en(ctx, c):
     ctx.sample({"format": f, "string": s, "result": iso(r)}, limit=3)
 
 
-def resolvable(lang):
+def resolvable(lang, normalize=True):
     """[(key, word)] of single-meaning names whose stand-alone translation is the canonical English name."""
     from dateparser.date import DateDataParser
 
     info = vocab.locale_info(lang, lang)
-    mm = vocab.meaning_map(info, True)
+    mm = vocab.meaning_map(info, normalize)
     L = vocab.get_locale(lang)
     translate = getattr(L, "translate", None)    # internal: when renamed, the free-text probe below is the only domain filter
-    st = getattr(DateDataParser(languages=[lang]), "_settings", None)
-    probe = DateDataParser(languages=[lang], settings={"RELATIVE_BASE": datetime(2021, 6, 16, 10, 30)})
+    st = getattr(DateDataParser(languages=[lang], settings={"NORMALIZE": normalize}), "_settings", None)
+    probe = DateDataParser(languages=[lang], settings={"RELATIVE_BASE": datetime(2021, 6, 16, 10, 30), "NORMALIZE": normalize})
     out = []
     for key in vocab.MONTHS + vocab.WEEKDAYS:
         seen = set()
@@ -152,7 +152,7 @@ def resolvable(lang):
             if not isinstance(w, str) or w in seen:
                 continue
             seen.add(w)
-            if mm.get(vocab.lookup_form(w, True)) != {key}:
+            if mm.get(vocab.lookup_form(w, normalize)) != {key}:
                 continue
             try:
                 if translate is not None and st is not None and translate(w, keep_formatting=False, settings=st).strip() != key:
@@ -169,7 +169,7 @@ def resolvable(lang):
     return out
 
 
-def check_loc(ctx, lang, key, w):
+def check_loc(ctx, lang, key, w, normalize=True):
     import dateparser
 
     if key in vocab.MONTHS:
@@ -196,7 +196,7 @@ def check_loc(ctx, lang, key, w):
         TranslateTap.reset()
         try:
             r = dateparser.parse(s, date_formats=fmts, languages=[lang],
-                                 settings={"PARSERS": ["custom-formats"]})
+                                 settings={"PARSERS": ["custom-formats"], "NORMALIZE": normalize})
         except Exception as e:
             r = e
         ctx.ran()
@@ -204,13 +204,14 @@ def check_loc(ctx, lang, key, w):
         ent = "%s|%s|%s" % (lang, key, w)
         if r != want:
             tr = [e for e in TranslateTap.events() if e[2]]
-            ctx.violation({"kind": "localised", "language": lang, "key": key, "word": w, "format": fmt, "string": s,
+            ctx.violation({"kind": "localised", "language": lang, "key": key, "word": w, "format": fmt, "string": s, "normalize": normalize,
                            "translated_with_formatting": tr[-1][3] if tr else None}, r, want, "localised-format-roundtrip",
                           {"entry": ent, "format": fmt, "kind": "month" if key in vocab.MONTHS else "weekday",
                            "raw_match": raw is not None})
             return
-        ctx.nontrivial(ent, fmt)
+        ctx.nontrivial(ent, fmt, normalize)
         ctx.count("localised_ok:%s" % ("month" if key in vocab.MONTHS else "weekday"))
+        ctx.count("localised_ok:NORMALIZE=%s" % normalize)
         if raw is not None:
             ctx.count("localised_raw_english_collision")
 
@@ -245,6 +246,9 @@ def run_shard(ctx, desc):
                 for key, w in resolvable(lang):
                     check_loc(ctx, lang, key, w)
                     n += 1
+                # the same names written exactly as listed, with accent normalisation off (the locale's other tables)
+                for key, w in resolvable(lang, False):
+                    check_loc(ctx, lang, key, w, False)
             ctx.count("localised_names", n)
             ctx.count("localised_languages", len(langs))
         ctx.reask()
@@ -271,6 +275,6 @@ def replay_case(ctx, v):
     TranslateTap.install()
     c = v["case"]
     if c.get("kind") == "localised":
-        check_loc(ctx, c["language"], c["key"], c["word"])
+        check_loc(ctx, c["language"], c["key"], c["word"], c.get("normalize", True))
     else:
         check_en(ctx, {k: c[k] for k in ("d", "f", "pd", "pm")})
